@@ -240,20 +240,12 @@ func RepresentativeKey(p *core.Program, r *core.Report, rule string) {
 	info := fd.Pkg.TypesInfo
 	// stored selectors
 	stored := map[string]string{}
-	ast.Inspect(fd.Decl.Body, func(n ast.Node) bool {
-		cl, ok := n.(*ast.CompositeLit)
-		if !ok || !core.TypeIs(info.TypeOf(cl), core.PkgK8s, "Pod") {
-			return true
+	// (in the literal of the pod or assigned to its fields afterwards)
+	for _, fw := range FieldWrites(info, fd.Decl.Body) {
+		if fw.Owner == "Pod" && strings.HasPrefix(core.RefName(fw.Field), "Representative") {
+			stored[core.RefName(fw.Field)] = core.ExprStr(fw.Value)
 		}
-		for _, el := range cl.Elts {
-			if kv, ok := el.(*ast.KeyValueExpr); ok {
-				if id, ok := kv.Key.(*ast.Ident); ok && strings.HasPrefix(id.Name, "Representative") {
-					stored[id.Name] = core.ExprStr(kv.Value)
-				}
-			}
-		}
-		return true
-	})
+	}
 	// key parts: locals defined by UniqueKeyFromLabelsSelector(X)
 	// (or by a helper of the package whose returned string is built from UniqueKeyFromLabelsSelector of its parameters:
 	// then the local covers the arguments those parameters receive)
